@@ -174,7 +174,94 @@ def randomize_flags(a, rng, p):
         randomize_flags(m, rng, p)
 
 
+PURITY_STREAM_A = None
+
+
+def _stream(kind):
+    """a well-formed stream with dictionary AVPs of several vendors, a Grouped AVP and an unknown AVP (built with the harness's own
+    tiny encoder, checked against the specification by the T stage)"""
+    def a(code, flags, data=b"", vendor=None, members=None):
+        return {"code": code.to_bytes(4, "big"), "flags": flags | (0x80 if vendor is not None else 0), "vendor": vendor.to_bytes(4, "big") if vendor is not None else b"",
+                "data": data, "members": members or [], "group": members is not None}
+    oh = a(264, 0x40, b"host.example")
+    orr = a(296, 0x40, b"example")
+    un = a(1, 0x40, b"user@example")
+    vsa = a(260, 0x40, members=[a(266, 0x40, (10415).to_bytes(4, "big")), a(258, 0x40, (16777251).to_bytes(4, "big"))])
+    ulr = a(1405, 0x40, (34).to_bytes(4, "big"), 10415)
+    unk = a(9999, 0x00, b"abc", 4242)
+    avps = {"a": [oh, orr, un, vsa, ulr, unk], "b": [un, unk, vsa, orr, oh, ulr, a(268, 0x40, (2001).to_bytes(4, "big"))],
+            "a2": [oh, ulr], "b2": [un, unk, orr]}[kind]
+    return enc_msg({"h": {"version": 1, "flags": 0x80 if kind.startswith("a") else 0x00, "cmd": (316).to_bytes(3, "big"), "app": (16777251).to_bytes(4, "big"),
+                          "hbh": (7).to_bytes(4, "big"), "e2e": (9).to_bytes(4, "big")}, "avps": avps})
+
+
+def _decode_job(raw):
+    def job():
+        from bromelia.base import DiameterMessage
+        msgs = DiameterMessage.load(bytes(raw))          # (no signal-based guard: this runs in a scheduler thread)
+        proj = [{"h": wirex.abstract_header(m.header), "avps": [norm(wirex.project_avp(a)) for a in m.avps]} for m in msgs]
+        return [proj, b"".join(m.dump() for m in msgs).hex()]
+    return job
+
+
+def purity(rep):
+    """two threads decoding at the same time (the class registry is rebuilt by the look-up itself)"""
+    from engine import concur
+    try:
+        ra, rb = _stream("a"), _stream("b")
+    except Exception as e:
+        raise RuntimeError(f"harness: cannot build the purity streams: {e}")
+    pairs = [("two streams decoded at the same time", _decode_job(ra), _decode_job(rb))]
+    small = [("two short streams decoded at the same time", _decode_job(_stream("a2")), _decode_job(_stream("b2")))]
+    return concur.purity_stage(rep, "the decoder", pairs, ("/bromelia/base.py",), kmax=4000, stride=97 if rep.tier == "quick" else 5,
+                               pct=40 if rep.tier == "quick" else 400, pct_pairs=small)
+
+
+MALFORMED_IN_GROUPED = [
+    # Vendor-Specific-Application-Id whose member claims more octets than the group holds
+    "000001044000001500000102400000ff00",
+    # Experimental-Result with a truncated member header
+    "00000129400000100000012a40000000",
+    # Vendor-Specific-Application-Id, member Vendor-Id of 5 octets (wrong width)
+    "0000010440000018" + "0000010a4000000d0000000001000000",
+    # Failed-AVP holding an Auth-Session-State with an unknown enumerator
+    "0000011740000014" + "000001154000000c00000063",
+]
+
+
+def after_failures(rep, vecs):
+    """the decoder must not depend on what it REFUSED before either: many streams that fail inside a Grouped AVP, then the
+    well-formed vectors again"""
+    from bromelia.base import DiameterMessage
+
+    def wrap(body):
+        return bytes([1]) + (20 + len(body)).to_bytes(3, "big") + bytes([0x80]) + (316).to_bytes(3, "big") + (16777251).to_bytes(4, "big") + bytes(8) + body
+    refused = 0
+    for rnd in range(3):
+        for i in range(45):
+            body = bytes.fromhex(MALFORMED_IN_GROUPED[i % len(MALFORMED_IN_GROUPED)])
+            if rnd == 2:
+                # nested: the failing Grouped AVP inside two more levels of Failed-AVP
+                for _ in range(2):
+                    body = (279).to_bytes(4, "big") + b"\x40" + (8 + len(body)).to_bytes(3, "big") + body
+            try:
+                with guard(20, "load"):
+                    DiameterMessage.load(wrap(body + bytes(-len(body) % 4)))
+            except BaseException:
+                refused += 1
+        sel = [v for v in vecs if any(a.get("members") for m in v["view"] for a in m["avps"])][:60] or vecs[:60]
+        for v in sel:
+            rep.case(("after-failures", rnd, bytes(v["bytes"])))
+            before = len(rep.violations)
+            check_vector(rep, v, {"kind": "stream-after-failures", "bytes": bytes(v["bytes"]).hex(), "round": rnd})
+            if len(rep.violations) > before:
+                rep.violations[-1]["what"] = f"after {45 * (rnd + 1)} refused streams (failures inside Grouped AVPs): " + rep.violations[-1]["what"]
+                return
+    rep.notes["refused_streams_before_second_pass"] = refused
+
+
 def run(rep):
+    purity(rep)
     ref = wirex.ref_dictionary()
     dev = "{\"D_Reflag\"}" if any(f["id"] == REFLAG for f in rep.findings) else "{}"
     rep.notes["specification_deviations_enabled"] = dev
@@ -197,6 +284,8 @@ def run(rep):
             reflag_seen += 1
         if len(rep.violations) >= 40:
             break
+    if len(rep.violations) < 40:
+        after_failures(rep, vecs)
     # the decoder must not depend on what it decoded before: second pass in reverse order
     if not rep.violations:
         for k, v in reversed(list(enumerate(vecs))):
@@ -288,6 +377,10 @@ def run(rep):
 
 def replay(rep, path):
     r = json.load(open(path))["replay"]
+    if r.get("kind") == "purity":
+        purity(rep)
+        rep.sample(r)
+        return rep.finish()
     ref = wirex.ref_dictionary()
     dev = "{\"D_Reflag\"}" if any(f["id"] == REFLAG for f in rep.findings) else "{}"
     raw = list(bytes.fromhex(r["bytes"]))
